@@ -103,6 +103,9 @@ type Ctx struct {
 	useHashable bool
 	stable      []stableCell
 	atCallSeen  map[string]int
+	iterSeq     int
+	mayCallMemo map[string]bool
+	trackedByKey map[string]string
 }
 
 // stableCell is a memory cell no callee can write: a non-escaping local or a
@@ -139,6 +142,13 @@ func (c *Ctx) reset() {
 	c.atCallSeen = map[string]int{}
 	c.ifaceLoads = nil
 	c.frameSeq = 0
+	c.iterSeq = 0
+	if c.mayCallMemo == nil {
+		c.mayCallMemo = map[string]bool{}
+	}
+	if c.trackedByKey == nil {
+		c.trackedByKey = map[string]string{}
+	}
 	if c.implTypes == nil {
 		c.implTypes = map[string]types.Type{}
 	}
@@ -278,6 +288,25 @@ func (c *Ctx) havocHeap(st *State, name string) {
 			}
 			m[name] = true
 		}
+	}
+}
+
+// havocAllCallee is havocAll for a call whose callee is known: ghost call
+// counters of functions the callee cannot reach keep their value.
+func (c *Ctx) havocAllCallee(st *State, cc *ssa.CallCommon) {
+	keep := map[string]T{}
+	for _, n := range c.R.heapOrder {
+		if !strings.HasPrefix(n, "Cnt_") && !strings.HasPrefix(n, "Last_") {
+			continue
+		}
+		tracked := c.trackedByKey[strings.TrimPrefix(strings.TrimPrefix(n, "Cnt_"), "Last_")]
+		if tracked != "" && !c.mayReach(cc, tracked) {
+			keep[n] = c.getHeap(st, n)
+		}
+	}
+	c.havocAll(st)
+	for n, v := range keep {
+		st.heaps[n] = v
 	}
 }
 
